@@ -1,4 +1,8 @@
 import Nuts.Basic
 import Nuts.Kernel
 import Nuts.Model.ListDS
+import Nuts.Model.SetDS
+import Nuts.Model.ZSetA
+import Nuts.Model.DB
+import Nuts.Model.Tx
 import Nuts.Spec.RList
